@@ -140,16 +140,6 @@ theorem retarget_after_fall {ms : Option Nat} {c c1 : ChanState} {l1 : Slot} (hc
     rw [hl] at hl1; injection hl1 with hl1; subst hl1
     omega
 
-theorem RT_suffix (cfg : ChanCfg) (a b : List Slot) (h : RT cfg (a ++ b)) : RT cfg b := by
-  induction a with
-  | nil => exact h
-  | cons x rest ih => exact ih h.2
-
-theorem LPC_suffix (a b : List Slot) (h : LPC (a ++ b)) : LPC b := by
-  induction a with
-  | nil => exact h
-  | cons x rest ih => exact ih h.2
-
 /-- **The retarget rule holds in every reachable state**, whatever the history (failing calls
 and oracle answers included): every target instruction `t` of a channel other than its initial
 one — `pre` are the instructions before it — lasts at least `fixed_retarget_t`, and its end is
